@@ -229,8 +229,9 @@ func parseEMLHeaders(mailHeader *netmail.Header, msg *Msg) error {
 	// Extract common headers
 	for _, header := range commonHeaders {
 		if value := mailHeader.Get(header.String()); value != "" {
-			if strings.EqualFold(header.String(), HeaderContentType.String()) &&
-				strings.HasPrefix(value, TypeMultipartMixed.String()) {
+			// The Content-Type header is generated by the message writer based on the parts of
+			// the Msg (see parseEMLContentTypeCharset)
+			if strings.EqualFold(header.String(), HeaderContentType.String()) {
 				continue
 			}
 			msg.SetGenHeader(header, value)
@@ -493,9 +494,10 @@ func parseEMLContentTypeCharset(mailHeader *netmail.Header, msg *Msg) {
 			msg.SetCharset(Charset(charset))
 		}
 		msg.setEncoder()
-		if contentType != "" && !strings.EqualFold(contentType, TypeMultipartMixed.String()) {
-			msg.SetGenHeader(HeaderContentType, contentType)
-		}
+		// The Content-Type itself must not be stored as generic header: the message writer
+		// generates the Content-Type header that fits the parts of the Msg, a stored one would
+		// be written in addition to it
+		_ = contentType
 	}
 }
 
